@@ -76,12 +76,15 @@ def chk_method(inp):
         "same direction, different mask layout": dict(masks=[m4, m4b, m4], H=[0, 0, 0], pos=[[0, 0], [0, 0], [12, -7]], lam=[5e-7] * 3),
         "same direction, different wavelength": dict(masks=[m4, m4, m4], H=[0, 0, 0], pos=[[3, 3], [3, 3], [-9, 4]], lam=[1.65e-6, 6e-7, 6e-7]),
         "true duplicate": dict(masks=[m4, m4, m4], H=[0, 0, 0], pos=[[3, 3], [3, 3], [-9, 4]], lam=[5e-7] * 3),
+        "unequal sub-aperture counts (12, 16, 4)": dict(masks=[m4, numpy.ones((4, 4)), aotools.circle(1, 4)], H=[0, 0, 90000.], pos=[[0, 0], [14, 2], [-9, 4]], lam=[5e-7, 6e-7, 7e-7]),
+        "unequal sub-aperture counts (16, 12, 12, 4)": dict(masks=[numpy.ones((4, 4)), m4, m4b, aotools.circle(1, 4)], H=[0, 0, 0, 0], pos=[[0, 0], [14, 2], [-9, 4], [5, 5]], lam=[5e-7] * 4),
         "no coincidence": dict(masks=[m4, m4b, m4], H=[0, 90000., 20000.], pos=[[0, 0], [14, 2], [-9, 4]], lam=[5e-7, 6e-7, 7e-7]),
     }
     for name, s_ in systems.items():
-        cmx = aotools.CovarianceMatrix(3, s_["masks"], 8., [2., 2., 2.], s_["H"], s_["pos"], s_["lam"], 2, numpy.array([0., 6000.]), [0.2, 0.3], [25., 20.])
+        nw = len(s_["masks"])
+        cmx = aotools.CovarianceMatrix(nw, s_["masks"], 8., [2.] * nw, s_["H"], s_["pos"], s_["lam"], 2, numpy.array([0., 6000.]), [0.2, 0.3], [25., 20.])
         C = cmx.make_covariance_matrix().astype(float)
-        n2 = 2 * int(cmx.n_subaps[0])
+        n2 = 2 * int(numpy.asarray(s_["masks"][0]).sum())          # the on-axis sensor is the first one: its sub-apertures counted from ITS mask
         Cno, Coo = C[:n2, n2:], C[n2:, n2:]
         for cond in (0, 1e-4):
             R = numpy.asarray(cmx.make_tomographic_reconstructor(cond), dtype=float)
